@@ -199,7 +199,7 @@ def stepLine (fl : Flags) (d : DState) (line : String) : DState × List String :
         let h' := step (step d.hub (.request c .workerBad)) .tick
         ({ d with hub := h' }, [delta d.hub h'])
       else if !fl.reloadPanics then
-        let h' := step (step d.hub (.request c .reloadRefused)) .tick
+        let h' := step (step d.hub (.request c (ClientVerb.reloadBad.classify fl.answers))) .tick
         ({ d with hub := h' }, [delta d.hub h'])
       else if d.hub.run = .exited then (d, ["-"]) else
       let known := if d.hub.known.contains c then d.hub.known else d.hub.known ++ [c]
